@@ -410,11 +410,13 @@ Fixpoint is_prefix (p l : list Z) : bool :=
 
 (* the specification of an index-range write, independent of set_range_of's loop:
    element k of the result is src[k - lo] when lo <= k <= hi and k - lo < |src|, else dst[k] *)
-Definition spec_elem (dst src : list value) (lo hi : Z) (k : nat) : option value :=
-  let kz := Z.of_nat k in
-  if (lo <=? kz) && (kz <=? hi) && (kz - lo <? len src) then znth src (kz - lo) else nth_error dst k.
+Definition spec_elem (src : list value) (lo hi : Z) (kd : nat * value) : value :=
+  let kz := Z.of_nat (fst kd) in
+  if (lo <=? kz) && (kz <=? hi) && (kz - lo <? len src)
+  then match znth src (kz - lo) with Some x => x | None => snd kd end
+  else snd kd.
 Definition spec_overwrite (dst src : list value) (lo hi : Z) : list value :=
-  flat_map (fun k => match spec_elem dst src lo hi k with Some x => [x] | None => [] end) (seq 0 (length dst)).
+  map (spec_elem src lo hi) (combine (seq 0 (length dst)) dst).
 
 (* what a successful write must leave in the variable *)
 Definition spec_written (x : var) (cur : value) (r : nrange) (v : value) : option value :=
